@@ -169,6 +169,61 @@ AddRow(mem, C, A, B, i) ==
   IN Put(m1, Addr(C, i, last), AndW(m1[Addr(C, i, last)], NotW(HighMask(C))) \cup AndW(s, HighMask(C)))
 MzdAdd(mem, C, A, B) == ForWords(mem, 0, C.nrows - 1, LAMBDA m, i : AddRow(m, C, A, B, i))
 
+(* mzd_col_swap_in_rows(M, cola, colb, start_row, stop_row) *)
+ColSwapRow(mem, M, i, cola, colb) ==
+  LET aw == cola \div W  bw == colb \div W  ab == cola % W  bb == colb % W
+      maxb == IF ab > bb THEN ab ELSE bb
+      minb == ab + bb - maxb
+      offset == maxb - minb
+      mask == {minb}
+  IN IF aw = bw
+     THEN LET x == mem[Addr(M, i, aw)]
+              v == AndW(XorW(x, ShrW(x, offset)), mask)
+          IN Put(mem, Addr(M, i, aw), XorW(x, v \cup ShlW(v, offset)))
+     ELSE LET minw == IF minb = ab THEN aw ELSE bw
+              maxw == IF minb = ab THEN bw ELSE aw
+              v == AndW(XorW(mem[Addr(M, i, minw)], ShrW(mem[Addr(M, i, maxw)], offset)), mask)
+              m1 == Put(mem, Addr(M, i, minw), XorW(mem[Addr(M, i, minw)], v))
+          IN Put(m1, Addr(M, i, maxw), XorW(m1[Addr(M, i, maxw)], ShlW(v, offset)))
+ColSwapInRows(mem, M, cola, colb, r0, r1) ==
+  IF cola = colb \/ r1 <= r0 THEN mem ELSE ForWords(mem, r0, r1 - 1, LAMBDA m, i : ColSwapRow(m, M, i, cola, colb))
+
+(* _mzd_compress_l(A, r1, n1, r2) (m4ri/mzp.c, as repaired by the fix for finding F17) *)
+RECURSIVE CompressClear(_, _, _, _, _)
+CompressClear(mem, A, i, j, stop) ==
+  IF j >= stop THEN mem
+  ELSE LET len == Min({W - (j % W), stop - j}) IN CompressClear(ClearBits(mem, A, i, j, len), A, i, j + len, stop)
+RECURSIVE CompressWords(_, _, _, _, _, _, _)
+CompressWords(mem, A, i, j, block, rest, lim) ==       \* the whole-word loop: j + W <= r1 + r2
+  IF j + W > lim THEN [mem |-> mem, j |-> j]
+  ELSE LET tmp == IF rest % W = 0 THEN mem[Addr(A, i, block)]
+                  ELSE ShrW(mem[Addr(A, i, block)], rest) \cup ShlW(mem[Addr(A, i, block + 1)], W - rest)
+       IN CompressWords(Put(mem, Addr(A, i, j \div W), tmp), A, i, j + W, block + 1, rest, lim)
+CompressRow(mem, A, i, r1, n1, r2, capped) ==
+  LET rest == W - (r1 % W)
+      tmp == ReadBits(mem, A, i, n1, rest)
+      m1 == XorBits(ClearBits(mem, A, i, r1, rest), A, i, r1, rest, tmp)
+      j1 == r1 + rest
+      lw == CompressWords(m1, A, i, j1, (n1 + j1 - r1) \div W, rest, r1 + r2)
+      m2 == IF lw.j < r1 + r2
+            THEN LET t2 == ReadBits(lw.mem, A, i, n1 + lw.j - r1, r1 + r2 - lw.j)
+                 IN XorBits(ClearBits(lw.mem, A, i, lw.j, r1 + r2 - lw.j), A, i, lw.j, r1 + r2 - lw.j, t2)
+            ELSE lw.mem
+      wend == ((n1 + r2 + W - 1) \div W) * W
+      stop == IF capped THEN Min({A.ncols, wend}) ELSE wend      \* not capped: the pinned tree (finding F17)
+  IN CompressClear(m2, A, i, r1 + r2, stop)
+RECURSIVE CompressSwaps(_, _, _, _, _, _)
+CompressSwaps(mem, A, i, j, r1, r2) ==
+  IF i >= r1 + r2 THEN mem ELSE CompressSwaps(ColSwapInRows(mem, A, i, j, i, r1 + r2), A, i + 1, j + 1, r1, r2)
+WCompressLG(mem, A, r1, n1, r2, capped) ==
+  IF r1 = n1 THEN mem
+  ELSE LET m1 == CompressSwaps(mem, A, r1, n1, r1, r2)
+       IN ForWords(m1, r1 + r2, A.nrows - 1, LAMBDA m, i : CompressRow(m, A, i, r1, n1, r2, capped))
+WCompressL(mem, A, r1, n1, r2) == WCompressLG(mem, A, r1, n1, r2, TRUE)
+WCompressLOld(mem, A, r1, n1, r2) == WCompressLG(mem, A, r1, n1, r2, FALSE)
+\* every address touched by the row part lies in the row (reads of the first chunk: the word of column n1 only,
+\* as rest <= W bits starting at a word boundary never spill)
+
 (* observers: read under the mask *)
 WIsZero(mem, A) ==
   \A i \in 0 .. A.nrows - 1 :
